@@ -20,7 +20,7 @@ EXPLANATION = (
     'TT stores a ply-independent value (read at another ply the score is that of the same n); every mate score of the domain is '
     'classified by isWinScore / isLoseScore and fits the 16-bit score field.'
     ' (2) a score found by searching after a null move leaves negaScout only after it was shown not to be a win score; (3) the check-evasion generator is complete (a node in check without evasions is scored as mate).'
-    ' Added later; (6) every TranspositionTable insert in negaScout is guarded by the flag derived from the singular-move test (unrestricted search). (7) forward-pruning skips in the move loop require a non-losing running maximum. (8) a move deferred by the ABDADA first pass (marked BUSY - reduction) is not skipped by the second pass, for every reduction 0..15.')
+    ' Added later; (6) every TranspositionTable insert in negaScout is guarded by the flag derived from the singular-move test (unrestricted search). (7) forward-pruning skips in the move loop require a non-losing running maximum. (8) a move deferred by the ABDADA first pass (marked BUSY - reduction) is not skipped by the second pass, for every reduction 0..15. (9) a recursive call that can be reached with the exclusive-probe request still set is followed directly by the BUSY test on its result; every other recursive call is made with the request cleared.')
 UNDECIDED = ('that a reported mate exists (game-tree semantics); soundness of pruning near mate scores (a rule "every pruning is guarded '
              'by normalBound" would also fire on removing a provably redundant conjunct, i.e. on a behaviour-preserving edit - declined).')
 ASSUMPTIONS = ['domain: mates in 0..60 moves at plies 0..40 (covers every distance an 8-bit tablebase state or a search line can encode)']
@@ -52,6 +52,7 @@ def run(fb, rep, tier):
     c6_no_store_from_restricted_search(fb, rep, 'C04.6')
     c7_pruning_needs_alternative(fb, rep, 'C04.7')
     c8_deferred_moves_retried(fb, rep, 'C04.8')
+    c9_busy_is_not_a_score(fb, rep, 'C04.9')
 
 
 def encoders(fb, rep, clause):
@@ -862,3 +863,64 @@ def c8_deferred_moves_retried(fb, rep, clause):
                '%s:%s' % (f.file, (f.blocks[skips[0][0]].get('term') or {}).get('ln') or f.line), '; '.join(bad_skip[:3]) or 'mark BUSY - lmr <= BUSY, skip test true only above', f.sname)
         rep.extra.setdefault('abdada_decoder_agreement', {})[tag] = 'reduction read back equals the one encoded' if decs and not bad_dec else ('; '.join(bad_dec[:3]) or 'no decoder found')
     rep.floor(clause, 'negaScout instantiations with an ABDADA deferral', n_inst, 2)
+
+
+# ----------------------------------------------------------------------------- .9
+
+def c9_busy_is_not_a_score(fb, rep, clause):
+    """K3 typestate of the ABDADA exclusive-probe request.  A child entered with `abdadaExclusive` set may answer BUSY instead
+    of a score.  BUSY is a control value (-32766, beyond every mate score): a caller that takes it for a score cuts off on
+    "+32766", stores it, and the root prints a mate distance in the hundreds.  So a recursive call that can be reached
+    with the request still set - no reset of the flag between the assignment that may set it and the call - must be
+    followed directly by the BUSY test on its result; every other recursive call must be made with the request cleared."""
+    cands = [f for f in fb.funcs.values() if f.has_cfg and f.sname == 'Search::negaScout' and len(f.blocks) > 50]
+    if rep.need(clause, cands, 'Search::negaScout') is None:
+        return
+    has_busy = lambda t: any(isinstance(n, dict) and n.get('q') == 'SearchConst::BUSY' for n in walk(t))
+    n_calls = 0
+    for f in sorted(cands, key=lambda x: x.name):
+        tag = f.name.replace('Search::', '')
+
+        def flag_write(e):
+            if e is None or e.get('k') != 'asg' or e.get('op') != '=':
+                return None
+            p_ = ap(e.get('l')) or ''
+            if not (p_.startswith('this.searchTreeInfo') and p_.endswith('.abdadaExclusive')):
+                return None
+            r = _strip4(e.get('r'))
+            return 'reset' if isinstance(r, dict) and r.get('cv') == 0 else 'set'
+        setters = [(b, i) for b, i, e in f.events() if flag_write(e) == 'set']
+        if rep.need(clause, setters, 'the assignment that requests an exclusive probe in ' + tag) is None:
+            continue
+        recs = []
+        for b, i, e in f.events():
+            if e.get('k') in ('asg', 'decl') and any(isinstance(n, dict) and n.get('k') == 'call' and cname(n) == 'Search::negaScout' for n in walk(e)):
+                var = None
+                if e.get('k') == 'asg' and isinstance(_strip4(e.get('l')), dict) and _strip4(e['l']).get('k') == 'var':
+                    var = _strip4(e['l'])['id']
+                elif e.get('k') == 'decl' and e.get('vars'):
+                    var = e['vars'][0]['id']
+                recs.append((b, i, e, var))
+        k = 0
+        for b, i, e, var in recs:
+            may = any(f.path_avoiding(s_, lambda x, _e=e: x is _e, lambda x: flag_write(x) == 'reset') is not None for s_ in setters)
+            k += 1
+            n_calls += 1
+            if not may:
+                rep.ob(clause, 'K3 typestate', '%s: recursive call #%d is made with the exclusive-probe request cleared' % (tag, k), True, R.site(f, e), '', f.sname)
+                continue
+            # the first decision after the call tests its result against BUSY
+            x, idx, ok, steps = b, i + 1, False, 0
+            while steps < 6:
+                blk = f.blocks[x]
+                t = blk.get('term') or {}
+                if t.get('cond') is not None and len(blk['succ']) == 2:
+                    c = t['cond']
+                    ok = has_busy(c) and (var is None or any(isinstance(n, dict) and n.get('k') == 'var' and n.get('id') == var for n in walk(c)))
+                    break
+                if len(blk['succ']) != 1:
+                    break
+                x, idx, steps = blk['succ'][0], 0, steps + 1
+            rep.ob(clause, 'K3 typestate', '%s: recursive call #%d can be reached with the exclusive-probe request set: its result is tested for BUSY before anything else' % (tag, k), ok,
+                   R.site(f, e), '' if ok else 'the next decision after the call does not compare the result with BUSY', f.sname)
+    rep.floor(clause, 'recursive calls of negaScout', n_calls, 8)
